@@ -20,7 +20,9 @@ import (
 //
 // Discovered statistically (3575 tested error calls in the storage, meta, kv,
 // tenant, replication and task packages: 104 reach a success exit, i.e. 97 %
-// propagate), then every exception was read and frozen here with its reason.
+// propagate), then every exception was read and frozen here with its reason. A branch on which the
+// failure is recognised as one specific class (err == ErrX, errors.Is, IsNotFound(err), case ErrX)
+// is a decision about that class and is not followed, so NotFound/EOF tolerances need no entry.
 
 const propagateNote = "failure-propagates: in every analysed function with an error result, a failure of any error-returning call makes the function fail (no success exit reachable from the failure branch, tracking which error variables are known non-nil), except the named (function, callee) pairs that deliberately tolerate a failure."
 
@@ -36,28 +38,23 @@ var propagateProps = map[string]bool{
 
 // "function|callee" → reason (each read in the source)
 var propagateExcept = map[string]string{
-	"authorization.Store.GetAuthorizationByToken|authorization.hashedAuthIndexBucket":                            "a missing hashed-token index (feature never enabled) is answered with the function-local not-found error, which the tracker cannot see is non-nil on the unconfigured path",
-	"authorization.Store.GetAuthorizationByToken|kv.Bucket.Get":                                                  "probe loop over hash variants: not-found keeps looking, any other error returns; the verdict after the loop is taken from `found`",
+	"kit/io.LimitedReadCloser.Close|io.Closer.Close":                                   "an earlier error (limit exceeded, or the error of the first Close) takes precedence and is the non-nil error returned; otherwise the close error is stored in l.err and returned",
+	"replications/remotewrite.writer.Write|replications/remotewrite.PostWrite":         "a 400 answer with DropNonRetryableData set deliberately drops the batch; C27 success-means-accepted decides exactly which PostWrite failures may return nil",
 	"authorizer.AuthorizeFindUserResourceMappings|authorizer.AuthorizeRead":                                      "filter: an unauthorised mapping is skipped, not an error (C29 decides the filter)",
 	"authorizer.OrgService.FindOrganizations|authorizer.AuthorizeReadGlobal":                                     "without the global read permission the filter is narrowed to the caller's own user and the result is filtered again",
 	"dbrp.Service.Delete|dbrp.Service.FindByID":                                                                  "documented: deleting a mapping that does not exist is not an error",
-	"dbrp.Service.FindByID|kv.Store.View":                                                                        "not-found falls back to the virtual mapping of a bucket with that id",
 	"dbrp.Service.FindMany|..BucketService.FindBuckets":                                                          "virtual mappings are best-effort: the physical mappings found so far are returned",
-	"http.AuthenticationHandler.extractAuthorization|jsonweb.TokenParser.Parse":                                  "a malformed JWT is not an error: the string is then looked up as an API token (C44 decides that lookup)",
 	"pkg/durablequeue.Queue.loadSegments|strconv.ParseUint":                                                      "directory entries whose name is not numeric are not segments and are skipped",
 	"pkg/durablequeue.Queue.trimHead|pkg/durablequeue.segment.close":                                             "the head segment is dropped from the queue regardless; failing to close the file is logged",
 	"pkg/durablequeue.Queue.trimHead|os.Remove":                                                                  "the head segment is dropped from the queue regardless; failing to remove the file is logged",
-	"pkg/durablequeue.queueScanner.Advance|pkg/durablequeue.segmentScanner.Advance":                              "io.EOF of the segment scanner means the segment is drained: the head is trimmed and the advance succeeds; any other error is reported after trimming",
 	"pkg/durablequeue.segment.open|pkg/durablequeue.segment.readBytes":                                           "a short block is repaired (truncate + footer) and the segment re-opened; the re-open's result is returned",
 	"pkg/durablequeue.segment.open|l.verifyBlockFn":                                                              "a block that fails verification truncates the segment to its start and re-opens it; the re-open's result is returned",
 	"pkg/durablequeue.segment.repair|pkg/durablequeue.segment.readUint64":                                        "a short record-size read marks the tail for truncation, which is the repair",
 	"task/backend.NotifyCoordinatorOfExisting|task/backend.TaskService.UpdateTask":                               "start-up resume: a task whose latestCompleted cannot be updated is logged and skipped, the others are still scheduled",
 	"task/backend.TaskNotifyCoordinatorOfExisting|task/backend.TaskService.UpdateTask":                           "start-up resume: a task whose latestCompleted cannot be updated is logged and skipped, the others are still scheduled",
-	"tenant.OrgSvc.DeleteOrganization|..BucketService.DeleteBucket":                                              "cascade: a bucket that is already gone (ErrBucketNotFound) is not an error; every other failure returns",
 	"tsdb.SeriesPartition.openSegments|tsdb.ParseSeriesSegmentFilename":                                          "directory entries that are not segment files are skipped",
 	"tsdb.Shard.closeNoLock|tsdb.Index.Close":                                                                    "the engine's close error is the one reported; the index handle is kept when its close failed",
 	"tsdb.Shard.validateSeriesAndFields|tsdb.Engine.CreateSeriesListIfNotExists":                                 "a PartialWriteError is turned into the dropped count / reason that WritePoints reports (C40 decides that accounting); every other error returns",
-	"tsdb.measurementFieldSetChangeMgr.loadAllFieldChanges|tsdb.measurementFieldSetChangeMgr.loadFieldChangeSet": "io.EOF ends the change log; an unexpected EOF is a torn last entry, which was never acknowledged (C10 decides the replay)",
 	"tsdb/engine/tsm1.Engine.Digest|os.Open":                                                                     "a cached digest that cannot be opened is regenerated",
 	"tsdb/engine/tsm1.Engine.Open|tsdb.NewMeasurementFieldSet":                                                   "an unreadable fields.idx is logged and rebuilt from the TSM files and the WAL",
 	"tsdb/engine/tsm1.Engine.WritePoints|tsdb/engine/tsm1.Engine.Type":                                           "an unknown field type means the field is new: it may be added",
@@ -108,6 +105,47 @@ func propagatePass(id string, p *core.Prog, r *core.Report) {
 		if len(sw) == 0 {
 			r.Ok(rule, f.String(), f.Pos(), "every failure of its error-returning calls makes the function fail")
 		}
+	}
+	// the same for (a) call sites whose error is tested by a compound or negated
+	// condition (`err != nil && …`, `!(err != nil)`, a test behind another
+	// condition) and (b) the error-returning function literals of those functions
+	// (C02 and C03 run both with their own exception tables in c02x_m1.go)
+	if id != "C02" && id != "C03" {
+		nNeg, nLit := 0, 0
+		for _, f := range fns {
+			report := func(cn, pos, where, exit string) {
+				if why, ok := propagateExcept[f.String()+"|"+cn]; ok {
+					r.Ok(rule, f.String(), pos, "failure of "+cn+" deliberately tolerated: "+why)
+					return
+				}
+				r.Bad(rule, f.String(), cn+":failure-swallowed", pos, where+" a failure of "+cn+" can reach the exit at "+exit+" on which success is reported")
+			}
+			name := func(c *ast.CallExpr) string {
+				cn := core.FName(core.Callee(f.Info(), c))
+				if cn == "" {
+					cn = core.Trim(core.ExprStr(c.Fun), 40)
+				}
+				return cn
+			}
+			n, sw := core.FailuresSwallowedNeg(f.Graph(), any)
+			nNeg += n
+			seen := map[string]bool{}
+			for _, s := range sw {
+				if cn := name(s.Call); !seen[cn] {
+					seen[cn] = true
+					report(cn, p.Pos(s.Call.Pos()), "on a branch that knows the error to be non-nil", f.Graph().Line(s.Exit))
+				}
+			}
+			n, lsw := core.FailuresSwallowedLits(f, any)
+			nLit += n
+			for _, s := range lsw {
+				if cn := name(s.Call); !seen["lit:"+cn] {
+					seen["lit:"+cn] = true
+					report(cn, p.Pos(s.Call.Pos()), "inside a function literal", s.G.Line(s.Exit))
+				}
+			}
+		}
+		r.Note("failure-propagates: %d further call sites behind compound/negated tests, %d inside error-returning function literals", nNeg, nLit)
 	}
 	r.Note("failure-propagates: %d functions with an error result, %d tested/forwarded error calls", nf, nc)
 }
